@@ -166,7 +166,15 @@ where
                 fail(l, "register-size", format!("register_size {} != {bytes}", mc.register_size()));
             }
             for &(n, c, is_extra) in &names {
-                let Some(c) = c else { continue };
+                let Some(c) = c else {
+                    // unknown names through the MinidumpContext dispatch as well: absent, never a panic
+                    match guard(|| mc.get_register(n).is_some()) {
+                        Ok(false) => {}
+                        Ok(true) => fail(l, "dispatch-unknown-readable", format!("MinidumpContext::get_register({n:?}) is Some for an unknown name")),
+                        Err(p) => l.panic_violation(&p, json!({"unknown_name": n, "via": "MinidumpContext::get_register"})),
+                    }
+                    continue;
+                };
                 if is_extra {
                     continue;
                 }
